@@ -153,7 +153,7 @@ class Oracle:
     def conv(self, n, vals):
         if self.dyn:
             if len(vals) != n:
-                raise Exc("ValueError")       # operands of different size: an exception, never an access outside the object
+                raise Exc("UNSPECIFIED")      # operands of different size: outside the property (never generated in judged streams)
             return list(vals)
         return (list(vals) + [Fraction(0)] * n)[:n]
 
@@ -334,7 +334,7 @@ def judge(case, impl_line):
     if exp == impl_line:
         return None
     if impl_line.startswith(("CRASH", "HANG", "NOT-RUN", "DRIVER-ERROR")):
-        kind = "size-mismatch:crash" if (is_dyn(case) and "!ValueError" in oracle_line(case, "")) else "crash"
+        kind = "crash"
         return "C20:%s%s" % (prefix_of(case).replace(" ; ", ":"), kind), "the interpreter did not survive the script: %s; the property requires %s" % (impl_line[:160], exp), case
     ops = split_case(case)
     et = exp.split(" # ")[0].split(" ; ")
@@ -346,8 +346,6 @@ def judge(case, impl_line):
             if is_dyn(case):
                 if t[0] in ("get", "set") and int(t[2]) < 0:
                     sig = "C20:%snegative-index" % prefix_of(case).replace(" ; ", ":")
-                elif et[j].startswith("!ValueError"):
-                    sig = "C20:%ssize-mismatch" % prefix_of(case).replace(" ; ", ":")
             elif is_npv(case):
                 pass
             elif t[0] == "set" and int(t[2]) < 0 and a.startswith("!TypeError"):
@@ -369,6 +367,14 @@ KINDS = ["list", "listf", "tuple", "args", "np", "nprev", "npstride", "array"]
 
 
 TV_CASES = ["tv ; f 17 ; v 2,2 ; f 3 ; v 1,2,3", "tv ; v 1,2,3 ; v 1,2", "tv ; f 1/2 ; i 5 ; v 7"]
+
+
+# NOT judged (no violation, no known finding): DynamicVector arithmetic with operands of different size is a C++ precondition
+# violation the property text does not speak about (its memory clause is about indices outside [-n, n)).  What the bindings do
+# in that case is only recorded in the evidence (coverage.unjudged_notes) and in ctx.notes.
+NOTE_CASES = ["dyn ; " + b for b in ("new 3 list 1,2,3 ; new 1 list 1 ; add 0 1", "new 1 list 1 ; new 3 list 1,2,3 ; sub 0 1", "new 3 list 1,2,3 ; addl 0 1",
+                                     "new 3 list 1,2,3 ; new 2 list 1,2 ; dot 0 1", "new 3 list 1,2,3 ; new 2 list 1,2 ; iadd 0 1",
+                                     "new 3 list 1,2,3 ; new 2 list 1,2 ; eq 0 1")] + ["dynj ; new 3 list 1,2,3 ; new 2 list 1,2 ; dot 0 1"]
 
 
 def ql(vals):
@@ -465,10 +471,6 @@ def gen(ctx, sizes):
             cases.append("%s ; new %d list %s ; addl 0 %s ; raddl 0 %s ; subl 0 %s ; rsubl 0 %s ; dotl 0 %s ; eql 0 %s ; iaddl 0 %s" % ((pre, n, ql(vals)) + (ql(w),) * 7))
         cases.append("%s ; new 0 list - ; len 0 ; iter 0 ; get 0 0 ; get 0 -1 ; norm1 0" % pre)
         cases.append("%s ; new 3 list 1,2,3 ; new 2 list 5,6 ; assign 0 1 ; len 0 ; set 0 0 9 ; get 1 0" % pre)
-        # operands of different size (few: the unrepaired code may abort the interpreter)
-        for body in ("new 3 list 1,2,3 ; new 1 list 1 ; add 0 1", "new 1 list 1 ; new 3 list 1,2,3 ; sub 0 1", "new 3 list 1,2,3 ; addl 0 1",
-                     "new 3 list 1,2,3 ; new 2 list 1,2 ; dot 0 1", "new 3 list 1,2,3 ; new 2 list 1,2 ; iadd 0 1", "new 3 list 1,2,3 ; new 2 list 1,2 ; eq 0 1"):
-            cases.append("%s ; %s" % (pre, body))
     # (7) TupleVector (every type tuple is a JIT module: one in quick, three in thorough): model c20_tv_*, theorem C20_tuple
     cases += TV_CASES[:1] if ctx.quick else TV_CASES
     # (5) random op sequences mixing views, copies and writes: a weighted walk over the shape of the registers
@@ -577,6 +579,10 @@ def run(ctx):
     rw = [i for i in rw if i not in skipped]
     for i, o in zip(rw, V.run_cases(ctx, impl_cmd(runner), [cases[i] for i in rw], tag="impl_npv_rw", timeout=tmo, env=env)):
         io[i] = o
+    note_obs = V.run_cases(ctx, impl_cmd(runner), NOTE_CASES, tag="impl_notes", timeout=120, env=env)
+    unjudged = ["%s  =>  %s" % (c, o.split(" # ")[0][:160]) for c, o in zip(NOTE_CASES, note_obs)]
+    ctx.notes.append("UNJUDGED observation (outside the property: operand-size mismatch is a C++ precondition): %d DynamicVector scripts with operands of "
+                     "different size were run and only recorded, see coverage.unjudged_notes" % len(NOTE_CASES))
     if skipped:
         ctx.notes.append("%d NumPyVector scripts writing through negative-stride views were NOT run because the read-only scripts show "
                          "that NumPyVector ignores strides (F-C20-3): they would write outside the array" % len(skipped))
@@ -628,7 +634,7 @@ def run(ctx):
         "scripts_leaving_the_model": unmodelled, "numpyvector_scripts": n_npv, "tuplevector_scripts": sum(1 for c in cases if is_tv(c)),
         "dynamicvector_scripts_oracle_only_TEST": {"dyn (prebuilt /repo/_build _common.so, DynamicVector<double>)": sum(1 for c in cases if c.startswith("dyn ;")),
                                                    "dynj (DynamicVector<float> bound just-in-time from the checked tree's headers)": sum(1 for c in cases if c.startswith("dynj"))}, "exhaustive": False, "traces_validated_against_impl": len(cases),
-        "impl_origin": origin,
+        "impl_origin": origin, "unjudged_notes": unjudged,
         "modelled_scripts": len(modelled), "impl_equals_model_with_fixes_C20_1_2": agree_fixed,
         "impl_equals_model_of_code_as_it_stands": agree_cur,
     })
